@@ -342,7 +342,7 @@ def subtrees_for_shrinking(t):
 
 class Style:
     FEATURES = ("prime", "arrow", "implicit_ret", "loop_do", "parens", "comments", "blank", "indent", "tabs",
-                "crlf", "brk", "cont")
+                "crlf", "brk", "cont", "primein", "tokbrk")
 
     def __init__(self, seed=None, **on):
         self.r = random.Random(seed)
@@ -366,12 +366,18 @@ def _atomlike(e):
 
 
 def rx(e, st, pos="tail"):
-    """render an expression.  pos: 'tail' (whole right-hand side / statement), 'full' (a complete expression
-    delimited by brackets or commas), 'operand' (operand of an operator)"""
-    s = _rx(e, st, pos)
-    if st.want("parens") and pos != "noparen":
-        return "(" + s + ")"
-    return s
+    """render an expression.  pos: 'tail' (whole right-hand side / statement, ended by the line), 'full' (a
+    complete expression followed by a comma), 'last' (a complete expression directly followed by a closing
+    bracket or by `do`), 'operand' (operand of an operator), 'lastop' (right-most operand of a 'last'
+    expression)"""
+    if st.want("parens"):
+        return "(" + _rx(e, st, "last") + ")"
+    return _rx(e, st, pos)
+
+
+def _items(st, es):
+    """render the elements of a bracketed list: the last one is directly followed by the closing bracket"""
+    return [rx(a, st, "last" if i == len(es) - 1 else "full") for i, a in enumerate(es)]
 
 
 def _brk(st, items, open_, close):
@@ -413,14 +419,18 @@ def _rx(e, st, pos):
         return e[1] + sep + s
     if k == "bin":
         _, op, l, r = e
-        ls = rx(l, st, "operand")
-        rs = rx(r, st, "operand")
         lt = ("bin", l[1], None, None) if l[0] == "bin" else (("un",) if l[0] == "un" else ("atom",))
         rt = ("bin", r[1], None, None) if r[0] == "bin" else (("un",) if r[0] == "un" else ("atom",))
+        ls = rx(l, st, "operand")
         if (need_l(op, lt) or l[0] == "ifx") and not _wrapped(ls):
             ls = "(" + ls + ")"
-        if (need_r(op, rt) or r[0] == "ifx") and not _wrapped(rs):
-            rs = "(" + rs + ")"
+        if need_r(op, rt) or r[0] == "ifx":
+            rs = rx(r, st, "last")
+            if not _wrapped(rs):
+                rs = "(" + rs + ")"
+        else:
+            # the right-most operand of an expression that is followed by a closer may be a prime call
+            rs = rx(r, st, "lastop" if pos in ("last", "lastop") else "operand")
         return "%s %s %s" % (ls, op, rs)
     if k == "call":
         _, f, args = e
@@ -428,16 +438,24 @@ def _rx(e, st, pos):
             if not args:
                 return f + "'"
             return f + "' " + _prime_args(st, [rx(a, st, "full") for a in args])
-        if args and pos in ("tail", "full") and st.want("arrow"):
+        if pos in ("last", "lastop") and st.want("primein"):
+            # the argument list of this prime call is ended by the closing bracket / `do` that follows
+            if not args:
+                return f + "'"
+            return f + "' " + ", ".join(_items(st, args))
+        if pos in ("operand", "tail", "full") and st.on["primein"] and st.r.random() < 0.5:
+            # (f' a, b + c): parentheses delimit the prime call's argument list
+            return "(" + _rx(e, st, "last") + ")"
+        if args and pos in ("tail", "full", "last") and st.want("arrow"):
             first = rx(args[0], st, "operand")
             if not _atomlike(args[0]) and not _wrapped(first):
                 first = "(" + first + ")"
-            return "%s -> %s%s" % (first, f, _brk(st, [rx(a, st, "full") for a in args[1:]], "(", ")"))
-        return f + _brk(st, [rx(a, st, "full") for a in args], "(", ")")
+            return "%s -> %s%s" % (first, f, _brk(st, _items(st, args[1:]), "(", ")"))
+        return f + _brk(st, _items(st, args), "(", ")")
     if k == "list":
-        return _brk(st, [rx(a, st, "full") for a in e[1]], "[", "]")
+        return _brk(st, _items(st, e[1]), "[", "]")
     if k == "tuple":
-        items = [rx(a, st, "full") for a in e[1]]
+        items = _items(st, e[1])
         if len(items) == 1:
             return "(" + items[0] + ",)"
         return _brk(st, items, "(", ")")
@@ -446,7 +464,9 @@ def _rx(e, st, pos):
     if k == "field":
         return "%s.%s" % (e[1], e[2])
     if k == "blobnew":
-        return e[1] + " " + _brk(st, ["%s: %s" % (f, rx(v, st, "full")) for f, v in e[2]], "{", "}")
+        n = len(e[2])
+        return e[1] + " " + _brk(st, ["%s: %s" % (f, rx(v, st, "last" if i == n - 1 else "full"))
+                                      for i, (f, v) in enumerate(e[2])], "{", "}")
     if k == "ifx":
         return "if %s do %s else %s end" % (rx(e[1], st, "full"), rx(e[2], st, "full"), rx(e[3], st, "full"))
     raise ValueError(k)
@@ -507,6 +527,55 @@ def _wrapped(s):
     return False
 
 
+_TOK = re.compile(r"//[^\n]*|<=>|<!>|->|::|:=|==|!=|<=|>=|\+=|-=|\*=|/=|[A-Za-z_][A-Za-z0-9_]*|\d+\.\d+|\d+|\S")
+
+
+def break_tokens(text, st):
+    """insert a line break (and sometimes a comment-only line) before/after tokens that stand inside ( ) [ ] { }
+    or inside the condition of an `if` / `elif` header -- the places where the parser skips newlines.  Lines that
+    contain an if-expression (whose `do ... end` bodies are statements) are left alone."""
+    if "\n" in text or "//" in text:
+        return text
+    body = text.strip()
+    header = re.match(r"(if|elif)\b", body) is not None and body.endswith(" do")
+    if re.search(r"\bif\b", body[2:] if header else body):
+        return text
+    toks = [(m.group(0), m.start(), m.end()) for m in _TOK.finditer(text)]
+    if len(toks) < 2:
+        return text
+    out = text[:toks[0][1]]
+    depth = 0
+    for i, (tok, a, b) in enumerate(toks):
+        out += tok
+        if tok in "([{" and len(tok) == 1:
+            depth += 1
+        nxt = toks[i + 1] if i + 1 < len(toks) else None
+        if nxt is None:
+            out += text[b:]
+            break
+        gap = text[b:nxt[1]]
+        inside = depth > 0
+        if nxt[0] in ")]}" and len(nxt[0]) == 1:
+            pass
+        if header:
+            # between `if` and the final `do`
+            inside = inside or (i >= 0 and i + 1 < len(toks) - 1 and i >= 0 and not (i == 0 and False))
+            if i == 0:
+                inside = depth > 0 or True
+            if i + 1 == len(toks) - 1:
+                inside = depth > 0 or True
+        if inside and st.r.random() < st.p:
+            brk = "\n"
+            if st.r.random() < 0.25:
+                brk += " " * st.r.randint(0, 8) + "// " + st.r.choice(["then", "c", "-> x", ")"]) + "\n"
+            out += brk + " " * st.r.randint(0, 10)
+        else:
+            out += gap
+        if nxt[0] in ")]}" and len(nxt[0]) == 1:
+            depth = max(0, depth - 1)
+    return out
+
+
 class _Out:
     def __init__(self, st):
         self.st = st
@@ -518,6 +587,8 @@ class _Out:
             self.lines.append("")
         if st.want("comments") and st.r.random() < 0.5:
             self.lines.append(st.unit * depth + "// " + st.r.choice(["note", "x := 1", "end", "do", "f' 1, 2", ""]))
+        if st.on["tokbrk"]:
+            text = break_tokens(text, st)
         if st.want("comments") and "\n" not in text:
             text = text + " // " + st.r.choice(["c", "ret 1", ")", ""])
         first = True
@@ -552,7 +623,7 @@ def render_stmt(s, st, out, depth, is_fn_tail=False):
     elif k == "if":
         first = True
         for c, body in s[1]:
-            out.line(depth, "%s %s do" % ("if" if first else "elif", rx(c, st, "full")))
+            out.line(depth, "%s %s do" % ("if" if first else "elif", rx(c, st, "last")))
             first = False
             render_block(body, st, out, depth + 1)
         if s[2] is not None:
@@ -777,7 +848,12 @@ def gen_program(r, size=4):
 
 
 STYLE_FEATURES = ["prime", "arrow", "implicit_ret", "loop_do", "parens", "comments", "blank", "indent", "tabs", "crlf",
-                  "brk", "cont"]
+                  "brk", "cont", "primein", "tokbrk"]
+
+# combinations that are always produced besides the single features: a prime / arrow call whose last argument is
+# followed, inside brackets or an `if` condition, by a line break and then an operator, `->`, `.`, `[` or `(`
+FIXED_COMBOS = [("primein", "tokbrk"), ("primein", "arrow", "tokbrk", "comments"), ("prime", "arrow", "parens", "tokbrk"),
+                ("arrow", "tokbrk")]
 
 
 def surface_variants(prog, seed, n_mixed=2):
@@ -785,6 +861,9 @@ def surface_variants(prog, seed, n_mixed=2):
     out = [("canonical", render_program(prog, Style()))]
     for i, f in enumerate(STYLE_FEATURES):
         out.append((f, render_program(prog, Style(seed * 131 + i, **{f: True}))))
+    for i, combo in enumerate(FIXED_COMBOS):
+        out.append(("combo:" + "+".join(combo),
+                    render_program(prog, Style(seed * 389 + i, p=0.7, **{f: True for f in combo}))))
     r = random.Random(seed)
     for j in range(n_mixed):
         on = {f: r.random() < 0.5 for f in STYLE_FEATURES}
